@@ -448,9 +448,36 @@ def rto_close_script(seed, idx, fam="close"):
     return script(f"{fam}/{idx}", seed * 41 + idx, socks, st, net={"latency_us": lat},
                   info={"family": fam, "fault": "rto_then_close", "closer": closer, "reader": "greedy", "n": n})
 
+def probe_close_script(seed, idx, fam="close"):
+    """The application closes right after writing, the last segment in flight is an MTU probe, and the path is narrower
+    than the link, so the probe is lost and its bytes are cut again into more segments: the FIN still follows the last
+    data segment, nothing is transmitted after it, and the peer's reader gets every byte and then end-of-stream."""
+    rng = random.Random(seed * 1000003 + idx * 89 + 67)
+    lat = rng.choice([1000, 10000])
+    mss = LINKS[1500]
+    n = rng.choice([991, mss + 991, mss + 991, 2 * mss + 991, 3 * mss + 991, 4 * mss + 991, 2000, 2047, rng.randrange(900, 4000)])
+    closer = rng.choice(["drop", "drop", "shutdown", "drop_w_then_r"])
+    st = connect_steps()
+    st += [{"op": "net_set", "from": "A", "to": "B", "blackhole_above": rng.choice([548, 548, 700])},
+           {"op": "read", "ep": "b"}, {"op": "read", "ep": "a"}, {"op": "write", "ep": "a", "n": n}]
+    if closer == "drop":
+        st.append({"op": "drop", "ep": "a"})
+    elif closer == "shutdown":
+        st.append({"op": "shutdown", "ep": "a"})
+    else:
+        st += [{"op": "drop_w", "ep": "a"}, {"op": "drop_r", "ep": "a"}]
+    st += [{"op": "wait", "timeout_us": 45 * SEC}, {"op": "drop", "ep": "a"}, {"op": "drop", "ep": "b"}, sleep(25 * SEC)]
+    gen = isn_pair(rng)
+    socks = [sock("A", A_ADDR, rand=[gen(), gen()], link_mtu=1500, probe_retx=rng.choice([0, 0, 1]), nagle=rng.random() < 0.5),
+             sock("B", B_ADDR, rand=[gen(), gen()], link_mtu=1500)]
+    return script(f"{fam}/{idx}", seed * 41 + idx, socks, st, net={"latency_us": lat},
+                  info={"family": fam, "class": "fair-lossy", "fault": "probe_lost_at_close", "closer": closer, "reader": "greedy", "n": n})
+
 def close_script(seed, idx, fam="close"):
     if idx % 10 == 7:
         return rto_close_script(seed, idx, fam)
+    if idx % 10 == 3:
+        return probe_close_script(seed, idx, fam)
     rng = random.Random(seed * 1000003 + idx * 17 + 3)
     link = rng.choice([576, 1500, 148])
     rx = rng.choice([2048, 4096, 65536, 1 << 20])
@@ -1101,7 +1128,7 @@ def id_walk_script(seed, idx, fam="sockpeer"):
     rng = random.Random(seed * 1000003 + idx * 73 + 53)
     cid0 = rng.choice([10, 65526, 65534, 2 * rng.randrange(50, 30000)])
     npend = rng.choice([0, 0, 1, 2])
-    k = [5, 6, 7, 1, 3, 4, 2][(idx // 7) % 7]
+    k = [5, 6, 7, 1, 3, 4, 2][(idx // 8) % 7]
     # (no gap inside the row: an incoming connection directly above a free id sends with that id + 1, which is also what
     #  an outgoing connection on the free id sends with - the two are indistinguishable on the wire, a property of the
     #  protocol's id scheme that a real peer resolves by ignoring the clashing SYN)
@@ -1132,9 +1159,35 @@ def id_walk_script(seed, idx, fam="sockpeer"):
     return script(f"{fam}/{idx}", seed * 103 + idx, socks, st, net={"latency_us": 1000},
                   info={"family": fam, "variant": "id_walk", "k": k, "npend": npend, "backlog": backlog_from_source()}, mute=["poll"])
 
+def same_syn_seq_script(seed, idx, fam="sockpeer"):
+    """Two (or three) connects to one peer are pending and their SYNs happen to carry the same sequence number (independent
+    16-bit draws); the SYN-ACKs arrive in another order than the SYNs left.  Whichever caller gets which connection, every
+    connection is registered under the id it receives on, and later datagrams reach the connection they name."""
+    rng = random.Random(seed * 1000003 + idx * 79 + 61)
+    cid0 = rng.choice([10, 65534, 2 * rng.randrange(50, 30000)])
+    n = rng.choice([2, 2, 3])
+    cids = [(cid0 + 2 * i) % 65536 for i in range(n)]
+    isn = rng.choice([1000, 65535, 0])
+    st = [{"op": "connect", "sock": "A", "to": "P", "ep": f"c{i}"} for i in range(n)] + [sleep(1010)]
+    order = list(range(n))
+    while order == sorted(order):
+        rng.shuffle(order)
+    for i in order:
+        st += [peer("raw", bytes=_hdr_bytes(2, cids[i], 7000 + 100 * i, isn), to="A"), sleep(rng.choice([1010, 20000]))]
+    st += [{"op": "wait", "what": "connect", "timeout_us": 1 * SEC}]
+    for i in range(n):          # a window update on every connection
+        st += [peer("raw", bytes=_hdr_bytes(2, cids[i], 7000 + 100 * i, isn, wnd=50000 + i), to="A"), sleep(1010)]
+    for i in range(n):
+        st += [{"op": "abandon", "ep": f"c{i}"}, {"op": "drop", "ep": f"c{i}"}]
+    st.append(sleep(20 * SEC))
+    socks = [sock("A", A_ADDR, rand=[cid0] + [isn] * n + [9000, 9001], link_mtu=576, max_retx=2, inactivity_ms=3000),
+             sock("P", P_ADDR, raw=True)]
+    return script(f"{fam}/{idx}", seed * 107 + idx, socks, st, net={"latency_us": 1000},
+                  info={"family": fam, "variant": "same_syn_seq", "n": n, "backlog": backlog_from_source()}, mute=["poll"])
+
 def sockpeer_script(seed, idx, fam="sockpeer"):
     return [clash_pending_script, dup_syn_live_script, backlog_clash_script, abandon_hole_script,
-            accept_race_script, accept_vs_syn_script, id_walk_script][idx % 7](seed, idx, fam)
+            accept_race_script, accept_vs_syn_script, id_walk_script, same_syn_seq_script][idx % 8](seed, idx, fam)
 
 # ------------------------------------------------------------------ a delayed (not lost) MTU probe behind a lost segment (C01, C06)
 def probe_delay_script(seed, idx, fam="probe_delay"):
